@@ -1,5 +1,151 @@
-(* Wire entry points of the C10 model (stub until the model is built). *)
-From Coq Require Import ZArith List.
-From SG Require Import Base.Sx.
+(* Wire entry points of the C10 model (hierarchical bases, hierarchisation, interpolation, checkers). *)
+From Coq Require Import ZArith List QArith Qcanon Bool Arith.
+From SG Require Import Base.Sx Base.QcUtil Model.Basis.
+Import ListNotations.
 Open Scope Z_scope.
-Definition entry_C10 (sub : Z) (a : sx) : sx := sx_err 0.
+
+Definition zn (z : Z) : nat := Z.to_nat z.
+Definition get_Ln (s : sx) : option (list nat) :=
+  match get_LZ s with Some l => Some (map Z.to_nat l) | None => None end.
+
+(* basis objects on the wire:
+   (0 knots idx) LagrangeBasis | (1 knots idx) Restricted | (2 p knots idx a b level) RestrictedModified
+   (3 p knots k) BSpline | (4 p idx level knots) HierarchicalNotAKnotBSpline | (5 p idx level knots a b) ...Modified *)
+Definition get_basis (s : sx) : option basis :=
+  match s with
+  | Lv [Zv 0; ks; Zv i] => match get_LQc ks with Some k => Some (BLag k (zn i)) | None => None end
+  | Lv [Zv 1; ks; Zv i] => match get_LQc ks with Some k => Some (BRLag k (zn i)) | None => None end
+  | Lv [Zv 2; Zv p; ks; Zv i; a; b; Zv l] =>
+    match get_LQc ks, get_Qc a, get_Qc b with
+    | Some k, Some a, Some b => Some (BRLagMod (zn p) k (zn i) a b (zn l))
+    | _, _, _ => None
+    end
+  | Lv [Zv 3; Zv p; ks; Zv i] => match get_LQc ks with Some k => Some (BBsp (zn p) k (zn i)) | None => None end
+  | Lv [Zv 4; Zv p; Zv i; Zv l; ks] => match get_LQc ks with Some k => Some (BNak (zn p) (zn i) (zn l) k) | None => None end
+  | Lv [Zv 5; Zv p; Zv i; Zv l; ks; a; b] =>
+    match get_LQc ks, get_Qc a, get_Qc b with
+    | Some k, Some a, Some b => Some (BNakMod (zn p) (zn i) (zn l) k a b)
+    | _, _, _ => None
+    end
+  | _ => None
+  end.
+
+Definition zN (n : nat) : sx := Zv (Z.of_nat n).
+Definition of_basis (b : basis) : sx :=
+  match b with
+  | BLag k i => Lv [Zv 0; of_LQc k; zN i]
+  | BRLag k i => Lv [Zv 1; of_LQc k; zN i]
+  | BRLagMod p k i a b l => Lv [Zv 2; zN p; of_LQc k; zN i; of_Qc a; of_Qc b; zN l]
+  | BBsp p k i => Lv [Zv 3; zN p; of_LQc k; zN i]
+  | BNak p i l k => Lv [Zv 4; zN p; zN i; zN l; of_LQc k]
+  | BNakMod p i l k a b => Lv [Zv 5; zN p; zN i; zN l; of_LQc k; of_Qc a; of_Qc b]
+  end.
+
+(* one dimension of a grid:
+   (0 p boundary modified a b pts levs)   GlobalLagrangeGrid
+   (1 p boundary modified a b pts levs)   GlobalBSplineGrid
+   (2 p boundary modified a b s e L)      LagrangeGrid (local; boundary only)
+   (3 p boundary modified a b s e L)      BSplineGrid (local)
+   result: the 1-D system, the levels of its points (for the order), and whether it is a Lagrange system *)
+Definition build_dim (s : sx) : option (list (Qc * basis) * list nat * bool) :=
+  match s with
+  | Lv [Zv kind; Zv p; bnd; md; a; b; pts; levs] =>
+    match get_bool bnd, get_bool md, get_Qc a, get_Qc b, get_LQc pts, get_Ln levs with
+    | Some bnd, Some md, Some a, Some b, Some pts, Some levs =>
+      if (length pts =? length levs)%nat then
+        match kind with
+        | 0 => match lagrange_system (zn p) bnd md a b pts levs with
+               | Some sy => Some (sy, interior bnd levs, negb md) | None => None end
+        | 1 => match bspline_system (zn p) bnd md a b pts levs with
+               | Some sy => Some (sy, interior bnd levs, false) | None => None end
+        | _ => None
+        end
+      else None
+    | _, _, _, _, _, _ => None
+    end
+  | Lv [Zv kind; Zv p; bnd; md; a; b; s; e; Zv L] =>
+    match get_bool bnd, get_bool md, get_Qc a, get_Qc b, get_Qc s, get_Qc e with
+    | Some bnd, Some md, Some a, Some b, Some s, Some e =>
+      match kind with
+      | 2 => if bnd && negb md then
+               match lagrange_system (zn p) true false s e (regular_points s e (zn L)) (regular_levels (zn L)) with
+               | Some sy => Some (sy, regular_levels (zn L), true) | None => None end
+             else None
+      | 3 => match local_bspline_system (zn p) (zn L) bnd md a b s e with
+             | Some sy => Some (sy, local_slice bnd (Qc_eqb s a) (Qc_eqb e b) (regular_levels (zn L)), false)
+             | None => None end
+      | _ => None
+      end
+    | _, _, _, _, _, _ => None
+    end
+  | _ => None
+  end.
+
+Definition mk_sys1 := choose_solver.
+
+Definition build_dims (l : list sx) : option (list (sys1 * bool)) :=
+  match opt_all (map build_dim l) with
+  | Some ds => Some (map mk_sys1 ds)
+  | None => None
+  end.
+
+Definition of_system (sy : list (Qc * basis)) : sx :=
+  Lv (map (fun xb => Lv [of_Qc (fst xb); of_basis (snd xb)]) sy).
+
+Definition entry_C10 (sub : Z) (a : sx) : sx :=
+  match sub, a with
+  (* 0: (basis xs) -> ((value d1 d2) ...) *)
+  | 0, Lv [bs; xs] =>
+    match get_basis bs, get_LQc xs with
+    | Some bf, Some xs => Lv (map (fun x => Lv [of_Qc (beval bf x); of_Qc (bd1 bf x); of_Qc (bd2 bf x)]) xs)
+    | _, _ => sx_err 1
+    end
+  (* 1: dimspec -> (system levels hier_ok collocation) *)
+  | 1, spec =>
+    match build_dim spec with
+    | Some d =>
+      let '(s1, ok) := mk_sys1 d in
+      Lv [of_system (s_basis s1); of_LZ (map Z.of_nat (snd (fst d))); sx_bool ok; of_LLQc (colloc (s_basis s1))]
+    | None => sx_err 2
+    end
+  (* 2: (dimspecs values evalpoints) -> (hier_ok-flags surpluses values-at-grid-points values-at-eval-points) *)
+  | 2, Lv [Lv specs; vals; evs] =>
+    match build_dims specs, get_LLQc vals, get_LLQc evs with
+    | Some ds, Some vals, Some evs =>
+      let ss := map fst ds in
+      match opt_all (map (hier_nd ss) vals) with
+      | Some surs =>
+        Lv [Lv (map (fun d => sx_bool (snd d)) ds);
+            of_LLQc surs;
+            of_LLQc (map (fun sur => map (fun x => interp_nd ss x sur) (grid_points ss)) surs);
+            of_LLQc (map (fun sur => map (fun x => interp_nd ss x sur) evs) surs)]
+      | None => sx_err 4
+      end
+    | None, _, _ => sx_err 2
+    | _, _, _ => sx_err 3
+    end
+  (* 3: (dimspecs surpluses values tol) -> per component: verified residual checker on given surpluses *)
+  | 3, Lv [Lv specs; surs; vals; tol] =>
+    match build_dims specs, get_LLQc surs, get_LLQc vals, get_Qc tol with
+    | Some ds, Some surs, Some vals, Some tol =>
+      let ss := map fst ds in
+      Lv (map (fun sv => sx_bool (interp_residual_ok ss (fst sv) (snd sv) tol)) (combine surs vals))
+    | None, _, _, _ => sx_err 2
+    | _, _, _, _ => sx_err 3
+    end
+  (* 4: dimspec -> unisolvence certificate (exact left inverse of the collocation matrix exists) *)
+  | 4, spec =>
+    match build_dim spec with
+    | Some d => sx_bool (match inverse_of (colloc (fst (fst d))) with Some _ => true | None => false end)
+    | None => sx_err 2
+    end
+  (* 5: (basis lo hi) -> exact integral of a Lagrange-type basis (restricted ones: over their support) *)
+  | 5, Lv [bs; lo; hi] =>
+    match get_basis bs, get_Qc lo, get_Qc hi with
+    | Some (BLag k i), Some lo, Some hi => of_Qc (lag_integral k i lo hi)
+    | Some (BRLag k i), Some _, Some _ => of_Qc (rl_integral k i)
+    | Some (BNak p i l k), Some lo, Some hi => if nak_is_lagrange p l then of_Qc (lag_integral k i lo hi) else sx_err 5
+    | _, _, _ => sx_err 5
+    end
+  | _, _ => sx_err 0
+  end.
